@@ -59,7 +59,15 @@ func LockImageConfiguration(ctx context.Context, ic types.ImageConfiguration, op
 		return nil, nil, err
 	}
 
-	for arch, pkgs := range toInstalls {
+	// Visit the architectures in a fixed order: unify starts from its first
+	// input, and whether a requested virtual counts as provided depends on it.
+	archKeys := make([]types.Architecture, 0, len(toInstalls))
+	for arch := range toInstalls {
+		archKeys = append(archKeys, arch)
+	}
+	sort.Slice(archKeys, func(i, j int) bool { return archKeys[i] < archKeys[j] })
+	for _, arch := range archKeys {
+		pkgs := toInstalls[arch]
 		r := resolved{
 			// ParseArchitecture normalizes the architecture into the
 			// canonical OCI form (amd64, not x86_64)
